@@ -122,11 +122,15 @@ Proof.
   destruct (memo_transparent V spec sched (pp p1) s (pp_consistent p1) Hok) as [Ev Ok1].
   destruct (run_cached sched (pp p1) s) as [[v s1] lg1]. cbn [fst snd] in Ev, Ok1. subst v.
   cbn [run_cached]. fold (pairs0 p1).
-  pose proof (if rep as b return Rel (if b then iter_rep_st H skip c rep V recs xs ys p1 p2 (pairs0 p1) else iter_norep_st H skip c rep V recs xs ys p1 p2 (pairs0 p1))
-                                   (if b then iter_rep_st H skip c rep V0 recs0 xs ys p1 p2 (pairs0 p1) else iter_norep_st H skip c rep V0 recs0 xs ys p1 p2 (pairs0 p1))
-              then iter_rep_rel recs recs0 HF xs ys p1 p2 (pairs0 p1) else iter_norep_rel recs recs0 HF xs ys p1 p2 (pairs0 p1)) as R.
+  set (mA := if rep then iter_rep_st H skip c rep V recs xs ys p1 p2 (pairs0 p1) else iter_norep_st H skip c rep V recs xs ys p1 p2 (pairs0 p1)).
+  set (mB := if rep then iter_rep_st H skip c rep V0 recs0 xs ys p1 p2 (pairs0 p1) else iter_norep_st H skip c rep V0 recs0 xs ys p1 p2 (pairs0 p1)).
+  assert (Rb : forall b : bool,
+            Rel (if b then iter_rep_st H skip c rep V recs xs ys p1 p2 (pairs0 p1) else iter_norep_st H skip c rep V recs xs ys p1 p2 (pairs0 p1))
+                (if b then iter_rep_st H skip c rep V0 recs0 xs ys p1 p2 (pairs0 p1) else iter_norep_st H skip c rep V0 recs0 xs ys p1 p2 (pairs0 p1))).
+  { intros [|]; [apply iter_rep_rel|apply iter_norep_rel]; exact HF. }
+  assert (R : Rel mA mB) by (subst mA mB; apply Rb).
   specialize (R s1 s0 Ok1).
-  destruct ((if rep then _ else _) s1) as [[r s2] lg2]. destruct ((if rep then _ else _) s0) as [[r0 s02] lg02].
+  destruct (mA s1) as [[r s2] lg2]. destruct (mB s0) as [[r0 s02] lg02].
   cbn [fst snd] in *. exact R.
 Qed.
 
